@@ -16,3 +16,9 @@ func verifYield(site string, m *Memberlist) {
 		f(site, name)
 	}
 }
+
+// verifYieldKey is verifYield with a discriminator (an existing string, e.g. the
+// subject node) so that goroutines woken at the same instant get stable ids.
+func verifYieldKey(site string, m *Memberlist, key string) {
+	verifYield(site+":"+key, m)
+}
